@@ -65,7 +65,7 @@ def sign_case(draw):
     nonce = draw(gens.hexbytes(32))
     other = draw(st.integers(0, 1 << 30))
     # classes the property must cover are forced by a hash selector (see rp_common.hsel): 1/16 each
-    sel = RC.hsel("C09", nonce, other)
+    sel = RC.hsel("C09", nonce, other, value, mn, exp, min_bits, blind, str(msg), bufk)
     if sel % 16 == 0:
         value, mn, exp = value | I63, 0, (0 if (sel >> 4) & 1 else -1)          # value >= 2^63 inside the documented-valid set
     elif sel % 16 == 1:
@@ -337,8 +337,8 @@ def run_size(env, case):
 
 
 TESTS = [
-    Test("sign_roundtrip", sign_case, run_sign, quick=2000, thorough=60000,
+    Test("sign_roundtrip", sign_case, run_sign, quick=5000, thorough=60000,
          must_cover=["region:fail", "region:succeed", "region:either", "sign_ok", "exact_value", "mantissa_odd", "mantissa_even", "mantissa=64", "value>=2^63",
                      "min==value", "msg_at_capacity", "msg_too_long", "blind>=n", "buf:max", "buf:exact-1", "exp_reduced", "gen:h", "gen:parse", "gen:blinded", "gen:seed"]),
-    Test("max_size_bound", size_case, run_size, quick=600, thorough=20000, must_cover=["value<max", "value==max"]),
+    Test("max_size_bound", size_case, run_size, quick=1500, thorough=20000, must_cover=["value<max", "value==max"]),
 ]
